@@ -62,7 +62,7 @@ APPS = ['web', 'api.v2', 'db-1']
 TEXT = st.text(
     alphabet=st.sampled_from(
         list('abcXYZ019 _-:#/\'"{}[],&*!|>%@`\\\n\t.=~?') + ['é', '中', '☃']),
-    max_size=10)
+    max_size=6)
 ODD = [
     'yes', 'no', 'null', '~', 'true', '1e3', '0x10', '012', '1_000', '', ' ',
     ' lead', 'trail ', '- x', 'a: b', '#c', 'multi\nline\n', '\n', '"q"',
@@ -86,7 +86,7 @@ NASTY = [
     "'", '\\', '\\ud83d\\ude80', '\\x41', '%', '@', '`', '!!str x', '!!binary |',
     '\n a', ' \na', 'a \nb', 'a\n\tb', 'a\n\n', '\n\n', '\ta', 'a\n ',
 ]
-WIDE_TEXT = st.text(max_size=6)      # any code point except surrogates
+WIDE_TEXT = st.text(max_size=4)      # any code point except surrogates
 STRINGS = ODD + NASTY
 # one draw for a catalogue string; sometimes glued to generated text
 STRING = st.one_of(
@@ -125,62 +125,72 @@ JSON_VALUE = st.recursive(
                             st.dictionaries(JSON_KEY, inner, max_size=3)),
     max_leaves=6)
 
-SERVICE = st.fixed_dictionaries({
-    'name': WORD, 'command': STRING,
-    'restart': st.fixed_dictionaries({
-        'limit': st.integers(0, 5),
-        'interval': _number(st.integers(1, 600))}),
-})
-ENDPOINT = st.fixed_dictionaries({
-    'name': WORD, 'port': st.integers(0, 65535),
-    'type': st.sampled_from(['infra', None]),
-})
-ENVIRON = st.fixed_dictionaries({'name': WORD.map(str.upper), 'value': STRING})
-# keys of etc/schema/app.json plus what the master side adds; values range over
-# the JSON value domain (str, int, float, bool, None, list, dict - nested and
-# empty). EventMgr is schema-agnostic: it must cache whatever JSON document is
-# in /scheduled, so 'annotations' carries an arbitrary small JSON tree.
-MANIFEST = st.fixed_dictionaries(
-    {
-        'memory': st.sampled_from(['100M', '1G', '512M']),
-        'cpu': st.sampled_from(['10%', '100%', '250%']),
-        'disk': st.sampled_from(['500M', '2G']),
-        'services': st.lists(SERVICE, min_size=1, max_size=2),
-        'priority': _number(st.integers(0, 100)),
-    },
-    optional={
-        'endpoints': st.lists(ENDPOINT, max_size=2),
-        'environ': st.lists(ENVIRON, max_size=2),
-        'args': st.lists(STRING, max_size=3),
-        'identity_group': st.one_of(st.none(), WORD),
-        'shared_network': st.booleans(),
-        'ephemeral_ports': st.fixed_dictionaries(
-            {'tcp': st.integers(0, 5), 'udp': st.integers(0, 5)}),
-        'affinity_limits': st.one_of(
-            st.just({}),
-            st.fixed_dictionaries({'server': st.integers(1, 3)})),
-        'tickets': st.lists(WORD, max_size=2),
-        'lease': st.sampled_from(['0s', '1h', '7d']),
-        'annotations': st.one_of(
-            st.just({}), st.just({'a': [], 'b': {}}),
-            st.dictionaries(JSON_KEY, JSON_VALUE, max_size=2)),
-    })
+MEMS = ['100M', '1G', '512M']
+CPUS = ['10%', '100%', '250%']
+DISKS = ['500M', '2G']
+WORDS = ['web', 'app', 'db_1', 'sshd', 'a', 'http-0', 'x9', 'worker']
+SHAPE = st.integers(0, 255)
+SMALL = st.integers(0, 65535)
+PRIORITY = _number(st.integers(0, 100))
+INTERVAL = _number(st.integers(1, 600))
+ANNOTATIONS = st.one_of(
+    st.just({}), st.just({'a': [], 'b': {}}),
+    st.dictionaries(JSON_KEY, JSON_VALUE, max_size=2))
+BIG_COUNT = st.sampled_from([300, 900, 2500])
 
 
-def _grow(pair):
-    man, (unit, count) = pair
-    man = dict(man)
-    # beyond the 8 KiB buffer of the temp file / libyaml's output buffer
-    man['args'] = [(unit or 'x') + str(i) for i in range(count)]
+def _manifest(draw, big=False):
+    """Keys of etc/schema/app.json plus what the master side adds; values
+    range over the JSON value domain (str, int, float, bool, None, list,
+    dict - nested and empty). EventMgr is schema-agnostic: it must cache
+    whatever JSON document is in /scheduled, so 'annotations' carries an
+    arbitrary small JSON tree. Few draws: `shape` selects the optional
+    sections, `small` feeds the boring fields, the strings / numbers that
+    matter are drawn individually."""
+    shape = draw(SHAPE)
+    small = draw(SMALL)
+    one, two = draw(STRING), draw(STRING)
+    man = {
+        'memory': MEMS[small % 3],
+        'cpu': CPUS[(small // 3) % 3],
+        'disk': DISKS[(small // 9) % 2],
+        'services': [{'name': WORDS[small % 8], 'command': one,
+                      'restart': {'limit': small % 6,
+                                  'interval': draw(INTERVAL)}}],
+        'priority': draw(PRIORITY),
+    }
+    if shape & 1:
+        man['services'].append(
+            {'name': WORDS[(small // 8) % 8], 'command': two,
+             'restart': {'limit': 5 - small % 6, 'interval': 60}})
+    if shape & 2:
+        man['endpoints'] = [
+            {'name': WORDS[(small // 64) % 8], 'port': small,
+             'type': 'infra' if small & 1 else None}
+        ] if shape & 128 else []
+    if shape & 4:
+        man['environ'] = [{'name': 'OPT_A', 'value': two},
+                          {'name': 'OPT_B', 'value': draw(STRING)}
+                          ][:1 + (small & 1)] if shape & 128 or small & 2 \
+            else []
+    if shape & 8:
+        man['args'] = [draw(STRING), one][:small % 3]
+    if shape & 16:
+        man['identity_group'] = WORDS[small % 8] if small & 4 else None
+        man['shared_network'] = bool(small & 8)
+        man['ephemeral_ports'] = {'tcp': small % 5, 'udp': small % 4}
+    if shape & 32:
+        man['affinity_limits'] = {'server': 1 + small % 3} if small & 16 \
+            else {}
+        man['tickets'] = [WORDS[small % 7]][:small % 2]
+        man['lease'] = ['0s', '1h', '7d'][small % 3]
+    if shape & 64 and small & 32:
+        man['annotations'] = draw(ANNOTATIONS)
+    if big:
+        # beyond the 8 KiB buffer of the temp file / libyaml's output buffer
+        man['args'] = [(two or 'x') + str(i)
+                       for i in range(draw(BIG_COUNT))]
     return man
-
-
-BIG_MANIFEST = st.tuples(
-    MANIFEST, st.tuples(STRING, st.sampled_from([300, 900, 2500]))).map(_grow)
-
-
-def manifests(big=False):
-    return BIG_MANIFEST if big else MANIFEST
 
 
 def _pdata(tup):
@@ -207,7 +217,6 @@ def pdatas():
     return PDATA
 
 
-OLD_OWN = st.fixed_dictionaries({'manifest': MANIFEST, 'pdata': PDATA})
 OLD_EDIT = st.tuples(st.integers(101, 200), st.sampled_from(['2G', '3G']))
 KIND3 = st.sampled_from([0, 1, 2])
 REL = st.sampled_from(['before', 'after'])
@@ -215,6 +224,7 @@ DELTA = st.sampled_from([1000, 5000, 3600000, 864000000])
 DIE6 = st.sampled_from(list(range(6)))
 DIE8 = st.sampled_from(list(range(8)))
 DIE4 = st.sampled_from(list(range(4)))
+DIE10 = st.sampled_from(list(range(10)))
 BOOL = st.booleans()
 
 
@@ -234,14 +244,14 @@ def _old_file(draw, manifest, can_same):
         old['memory'] = mem
         old.pop('environ', None)
         return {'manifest': old, 'pdata': draw(PDATA)}
-    return draw(OLD_OWN)
+    return {'manifest': _manifest(draw), 'pdata': draw(PDATA)}
 
 
 def _instance(draw, name, role, big=False):
     inst = {'name': name, 'role': role}
     if role == 'extra':
         inst['placed'] = False
-        inst['manifest'] = draw(MANIFEST) if draw(BOOL) else None
+        inst['manifest'] = _manifest(draw) if draw(BOOL) else None
         inst['pnode'] = draw(DIE8) == 0
         inst['pdata'] = draw(PDATA) if inst['pnode'] else None
         inst['file'] = _old_file(draw, inst['manifest'],
@@ -250,7 +260,7 @@ def _instance(draw, name, role, big=False):
         inst['delta_ms'] = draw(DELTA)
     elif role in ('missing', 'existing'):
         inst['placed'] = True
-        inst['manifest'] = draw(manifests(big)) if draw(DIE6) else None
+        inst['manifest'] = _manifest(draw, big) if draw(DIE6) else None
         inst['pnode'] = draw(DIE6) != 0
         inst['pdata'] = draw(PDATA) if inst['pnode'] else None
         inst['file'] = None
@@ -261,7 +271,7 @@ def _instance(draw, name, role, big=False):
             inst['delta_ms'] = draw(DELTA)
     else:   # 'absent': known to ZooKeeper, neither placed here nor cached
         inst['placed'] = False
-        inst['manifest'] = draw(MANIFEST)
+        inst['manifest'] = _manifest(draw)
         inst['pnode'] = False
         inst['pdata'] = None
         inst['file'] = None
@@ -328,7 +338,7 @@ def _fault_case(draw):
     names = draw(NAME_ORDER)[:1 + len(others)]
     big = draw(DIE4) == 0
     target = {'name': names[0], 'role': 'target', 'placed': True,
-              'manifest': draw(manifests(big)), 'pnode': True,
+              'manifest': _manifest(draw, big), 'pnode': True,
               'pdata': draw(PDATA)}
     check_existing = draw(BOOL)
     if check_existing and draw(BOOL):
@@ -352,7 +362,7 @@ def _fault_case(draw):
 
 @st.composite
 def cases(draw):
-    if draw(DIE6) == 0:
+    if draw(DIE10) == 0:
         return _fault_case(draw)
     return _sync_case(draw)
 
@@ -378,7 +388,44 @@ def _classify(case):
     return extra, missing, existing
 
 
+def _value_classes(value, found):
+    if isinstance(value, dict):
+        for key, item in value.items():
+            _value_classes(key, found)
+            _value_classes(item, found)
+        if not value:
+            found.add('empty_container')
+    elif isinstance(value, list):
+        for item in value:
+            _value_classes(item, found)
+        if not value:
+            found.add('empty_container')
+    elif isinstance(value, str):
+        for char in value[:64]:
+            code = ord(char)
+            if code > 0xffff:
+                found.add('str_non_bmp')
+            elif code > 0x7f:
+                found.add('str_non_ascii')
+            elif (code < 0x20 and char not in '\n\t') or code == 0x7f:
+                found.add('str_control_char')
+    elif isinstance(value, float):
+        found.add('float_exponent_form' if 'e' in repr(value) else 'float')
+    elif isinstance(value, int) and not isinstance(value, bool) and \
+            abs(value) >= 2 ** 63:
+        found.add('int_beyond_64bit')
+
+
 def _count_case(case, stats):
+    found = set()
+    for inst in case['instances']:
+        if inst.get('placed') and inst.get('pnode') and \
+                inst.get('manifest') is not None:
+            # values that go through ZooKeeper read -> merge -> YAML write
+            _value_classes(inst['manifest'], found)
+            _value_classes(inst.get('pdata'), found)
+    for klass in found:
+        stats.count('cases_with_' + klass)
     for inst in case['instances']:
         if inst.get('placed') and inst.get('manifest') is None:
             stats.count('placed_manifest_missing')
@@ -608,7 +655,22 @@ def fixed_cases():
         ],
         'dotfiles': [],
     }
+    only_outdated = {
+        # nothing extra, nothing missing: the only work is the refresh
+        'kind': 'sync', 'check_existing': True,
+        'instances': [
+            {'name': 'foo.db-1#0000000012', 'role': 'existing', 'placed': True,
+             'manifest': _man(3), 'pnode': True, 'pdata': _pd(0, 1578280000.0),
+             'file': {'manifest': _man(2), 'pdata': _pd(0, 1578270000.0)},
+             'rel': 'after', 'delta_ms': 5000},
+            {'name': 'foo.web#0000000001', 'role': 'existing', 'placed': True,
+             'manifest': _man(1), 'pnode': True, 'pdata': _pd(None, None),
+             'file': 'same', 'rel': 'before', 'delta_ms': 5000},
+        ],
+        'dotfiles': [{'name': '.ready', 'text': ''}],
+    }
     return [('aimed-sync-extra-missing-outdated', mixed),
+            ('aimed-sync-only-outdated', only_outdated),
             ('aimed-sync-json-value-domain', wide),
             ('aimed-fault-replace-existing', replace_old),
             ('aimed-fault-create-new', create_new)]
